@@ -257,23 +257,34 @@ Section AtomicProofs.
      logged and its results are unchanged, or exactly its response r is logged
      and r is appended to its results *)
   Lemma astep_shape c t ch c' : astep c t ch = Some c' ->
-    exists th th' evs, nth_error (a_threads c) t = Some th /      a_threads c' = set_athread (a_threads c) t th' /\ a_trace c' = evs ++ a_trace c /      ((a_rets th' = a_rets th /\ no_res evs) \/ exists r, a_rets th' = a_rets th ++ [r] /\ evs = [EvRes t r]).
+    exists th th' evs, nth_error (a_threads c) t = Some th /\
+      a_threads c' = set_athread (a_threads c) t th' /\ a_trace c' = evs ++ a_trace c /\
+      ((a_rets th' = a_rets th /\ no_res evs) \/ exists r, a_rets th' = a_rets th ++ [r] /\ evs = [EvRes t r]).
   Proof.
     unfold AtomicPool.astep. destruct (nth_error (a_threads c) t) as [th|] eqn:Hth; [|discriminate].
     assert (N0 : no_res []) by (intros ? ? []).
     assert (N1 : forall t0, no_res [EvLin t0]) by (intros ? ? ? [E|[]]; discriminate).
     assert (N2 : forall t0 o, no_res [EvInv t0 o]) by (intros ? ? ? ? [E|[]]; discriminate).
+    assert (fin : forall th' evs,
+              a_rets th' = a_rets th -> no_res evs ->
+              exists th0 th'0 evs0, Some th = Some th0 /\
+                set_athread (a_threads c) t th' = set_athread (a_threads c) t th'0 /\ evs ++ a_trace c = evs0 ++ a_trace c /\
+                ((a_rets th'0 = a_rets th0 /\ no_res evs0) \/ exists r, a_rets th'0 = a_rets th0 ++ [r] /\ evs0 = [EvRes t r])).
+    { intros th' evs H1 H2. exists th, th', evs. repeat split; auto. }
     destruct (a_pc th) as [|o|old new ver|old new|r].
     - destruct (a_prog th) as [|o rest]; [discriminate|]. intros [= <-]. simpl.
-      eexists th, _, [EvInv t o]. repeat split; auto. left. simpl. auto.
+      apply (fin _ [EvInv t o]); auto.
     - destruct o as [|v|v|old new].
-      + intros [= <-]. eexists th, _, _. simpl. repeat split; auto. left; simpl; auto.
-      + intros [= <-]. eexists th, _, _. simpl. repeat split; auto. left; simpl; auto.
-      + intros [= <-]. eexists th, _, _. simpl. repeat split; auto. left; simpl; auto.
-      + destruct (prim_cas1 eqb old (a_reg c)); intros [= <-]; eexists th, _, _; simpl; repeat split; auto; left; simpl; auto.
-    - destruct (prim_cas2 eqb ver old new ch (a_reg c)) as [[|] reg]; intros [= <-]; eexists th, _, _; simpl; repeat split; auto; left; simpl; auto.
-    - destruct (prim_load (a_reg c)) as [x|]; [destruct (eqb x old)|]; intros [= <-]; eexists th, _, _; simpl; repeat split; auto; left; simpl; auto.
-    - intros [= <-]. eexists th, _, [EvRes t r]. simpl. repeat split; auto. right. eexists. simpl. auto.
+      + intros [= <-]. simpl. apply (fin _ [EvLin t]); auto.
+      + intros [= <-]. simpl. apply (fin _ [EvLin t]); auto.
+      + intros [= <-]. simpl. apply (fin _ [EvLin t]); auto.
+      + destruct (prim_cas1 eqb old (a_reg c)); intros [= <-]; simpl; apply (fin _ []); auto.
+    - destruct (prim_cas2 eqb ver old new ch (a_reg c)) as [[|] reg]; intros [= <-]; simpl;
+        [apply (fin _ [EvLin t])|apply (fin _ [])]; auto.
+    - destruct (prim_load (a_reg c)) as [x|]; [destruct (eqb x old)|]; intros [= <-]; simpl;
+        [apply (fin _ [])|apply (fin _ [EvLin t])|apply (fin _ [EvLin t])]; auto.
+    - intros [= <-]. simpl. exists th, (AThread (a_prog th) AIdle (a_rets th ++ [r])), [EvRes t r].
+      repeat split; auto. right. exists r. auto.
   Qed.
 
   Definition rets_ok (c : aconfig V) : Prop :=
@@ -281,8 +292,8 @@ Section AtomicProofs.
 
   Lemma astep_rets c t ch c' : rets_ok c -> astep c t ch = Some c' -> rets_ok c'.
   Proof.
-    intros H Hs. destruct (astep_shape _ _ _ _ Hs) as (th & th' & evs & Hth & -> & -> & Hr).
-    intros t0 th0 H0. destruct (Nat.eq_dec t0 t) as [->|N].
+    intros H Hs. destruct (astep_shape _ _ _ _ Hs) as (th & th' & evs & Hth & E1 & E2 & Hr).
+    unfold rets_ok. rewrite E1, E2. intros t0 th0 H0. destruct (Nat.eq_dec t0 t) as [->|N].
     - rewrite (nth_error_aset_same _ _ _ _ Hth) in H0. injection H0 as <-.
       destruct Hr as [(-> & Hn)|(r & -> & ->)].
       + rewrite tres_no_res by exact Hn. apply H; auto.
@@ -302,6 +313,116 @@ Section AtomicProofs.
     { induction s0 as [|[t0 ch] s0 IH]; intros c H; simpl; auto.
       apply IH. destruct (astep c t0 ch) as [c'|] eqn:E; auto. eapply astep_rets; eauto. }
     apply G. intros t0 th0 H0. apply nth_error_In in H0. apply in_map_iff in H0 as (p & <- & _). reflexivity.
+  Qed.
+
+  (* ---- the retry loop is obstruction-free: a call running alone returns ---- *)
+
+  Definition tpc (c : aconfig V) (t : tid) : option (apc V) := option_map (@a_pc V) (nth_error (a_threads c) t).
+  Definition solo (c : aconfig V) (t : tid) (n : nat) : aconfig V := arun c (repeat (t, false) n).
+
+  Lemma solo_S c t n c' : astep c t false = Some c' -> solo c t (S n) = solo c' t n.
+  Proof. intro H. unfold solo. simpl. rewrite H. reflexivity. Qed.
+
+  (* one step of thread t, seen from t: the next pc and register *)
+  Lemma astep_local c t p :
+    tpc c t = Some p -> p <> AIdle ->
+    exists c', astep c t false = Some c' /\
+      match p with
+      | AIdle => False
+      | ACall OLoad => a_reg c' = a_reg c /\ exists r, tpc c' t = Some (ARet r)
+      | ACall (OStore v) | ACall (OSwap v) => exists r, tpc c' t = Some (ARet r)
+      | ACall (OCas old new) =>
+          a_reg c' = a_reg c /\
+          tpc c' t = Some (match prim_cas1 eqb old (a_reg c) with Some ver => ACas2 old new ver | None => ACasLoad old new end)
+      | ACas2 old new ver =>
+          a_reg c' = snd (prim_cas2 eqb ver old new false (a_reg c)) /\
+          tpc c' t = Some (if fst (prim_cas2 eqb ver old new false (a_reg c)) then ARet (RBool true) else ACasLoad old new)
+      | ACasLoad old new =>
+          a_reg c' = a_reg c /\
+          tpc c' t = Some (match prim_load (a_reg c) with
+                           | None => ARet (RBool false)
+                           | Some x => if eqb x old then ACall (OCas old new) else ARet (RBool false)
+                           end)
+      | ARet r => tpc c' t = Some AIdle
+      end.
+  Proof.
+    unfold tpc, AtomicPool.astep. destruct (nth_error (a_threads c) t) as [th|] eqn:Hth; [|discriminate].
+    simpl. intros [= <-] Hn.
+    assert (R : forall reg th' tr, option_map (@a_pc V) (nth_error (a_threads (AConfig reg (set_athread (a_threads c) t th') tr)) t) = Some (a_pc th')).
+    { intros. simpl. rewrite (nth_error_aset_same _ _ _ _ Hth). reflexivity. }
+    destruct (a_pc th) as [|o|old new ver|old new|r]; [congruence| | | |].
+    - destruct o as [|v|v|old new].
+      + eexists. split; [reflexivity|]. split; [reflexivity|]. eexists. (simpl; rewrite (nth_error_aset_same _ _ _ _ Hth); reflexivity).
+      + eexists. split; [reflexivity|]. eexists. (simpl; rewrite (nth_error_aset_same _ _ _ _ Hth); reflexivity).
+      + eexists. split; [reflexivity|]. eexists. (simpl; rewrite (nth_error_aset_same _ _ _ _ Hth); reflexivity).
+      + destruct (prim_cas1 eqb old (a_reg c)); eexists; (split; [reflexivity|]); (split; [reflexivity|]); (simpl; rewrite (nth_error_aset_same _ _ _ _ Hth); reflexivity).
+    - destruct (prim_cas2 eqb ver old new false (a_reg c)) as [[|] reg]; eexists; (split; [reflexivity|]); (split; [reflexivity|]); (simpl; rewrite (nth_error_aset_same _ _ _ _ Hth); reflexivity).
+    - destruct (prim_load (a_reg c)) as [x|]; [destruct (eqb x old)|]; eexists; (split; [reflexivity|]); (split; [reflexivity|]); (simpl; rewrite (nth_error_aset_same _ _ _ _ Hth); reflexivity).
+    - eexists. split; [reflexivity|]. (simpl; rewrite (nth_error_aset_same _ _ _ _ Hth); reflexivity).
+  Qed.
+
+  Lemma solo_ret c t r : tpc c t = Some (ARet r) -> tpc (solo c t 1) t = Some AIdle.
+  Proof.
+    intro H. destruct (astep_local c t _ H) as (c' & Hs & Hp); [discriminate|].
+    rewrite (solo_S _ _ _ _ Hs). exact Hp.
+  Qed.
+
+  (* Any call in progress returns within 6 steps of its thread if no other
+     thread moves meanwhile (for CompareAndSwap: whatever the primitive did to
+     it before, at most one more failing pointer-CAS, one Load, one retry). *)
+  Theorem call_returns_when_alone c t p :
+    tpc c t = Some p -> p <> AIdle -> exists n, n <= 6 /\ tpc (solo c t n) t = Some AIdle.
+  Proof.
+    intros Hp Hn.
+    (* from ARet: 1 step *)
+    assert (A1 : forall c r, tpc c t = Some (ARet r) -> exists n, n <= 1 /\ tpc (solo c t n) t = Some AIdle).
+    { intros c0 r H. exists 1. split; [lia|]. eapply solo_ret; eauto. }
+    (* from ACas2 with the current box remembered: 2 steps *)
+    assert (A2 : forall c old new b, tpc c t = Some (ACas2 old new (b_ver b)) -> r_cur (a_reg c) = Some b ->
+                 exists n, n <= 2 /\ tpc (solo c t n) t = Some AIdle).
+    { intros c0 old new b H Hc. destruct (astep_local c0 t _ H) as (c1 & Hs & _ & Hp1); [discriminate|].
+      unfold prim_cas2 in Hp1. rewrite Hc, Nat.eqb_refl in Hp1. simpl in Hp1.
+      destruct (A1 _ _ Hp1) as (n & Hle & Hn1). exists (S n). split; [lia|]. rewrite (solo_S _ _ _ _ Hs). exact Hn1. }
+    (* from the start of an attempt: 3 steps *)
+    assert (A3 : forall c old new, tpc c t = Some (ACall (OCas old new)) ->
+                 (forall b, r_cur (a_reg c) = Some b -> eqb (b_val b) old = true) -> r_cur (a_reg c) <> None ->
+                 exists n, n <= 3 /\ tpc (solo c t n) t = Some AIdle).
+    { intros c0 old new H Heq Hne. destruct (astep_local c0 t _ H) as (c1 & Hs & Hreg & Hp1); [discriminate|].
+      unfold prim_cas1 in Hp1. destruct (r_cur (a_reg c0)) as [b|] eqn:Hc; [|congruence].
+      rewrite (Heq b eq_refl) in Hp1. rewrite <- Hreg in Hc.
+      destruct (A2 _ _ _ _ Hp1 Hc) as (n & Hle & Hn1). exists (S n). split; [lia|]. rewrite (solo_S _ _ _ _ Hs). exact Hn1. }
+    (* from the Load after a failed attempt: 5 steps *)
+    assert (A4 : forall c old new, tpc c t = Some (ACasLoad old new) -> exists n, n <= 5 /\ tpc (solo c t n) t = Some AIdle).
+    { intros c0 old new H. destruct (astep_local c0 t _ H) as (c1 & Hs & Hreg & Hp1); [discriminate|].
+      unfold prim_load in Hp1. destruct (r_cur (a_reg c0)) as [b|] eqn:Hc; simpl in Hp1.
+      - destruct (eqb (b_val b) old) eqn:Heq.
+        + destruct (A3 _ _ _ Hp1) as (n & Hle & Hn1).
+          * rewrite Hreg, Hc. intros b' [= <-]. exact Heq.
+          * rewrite Hreg, Hc. discriminate.
+          * exists (S n). split; [lia|]. rewrite (solo_S _ _ _ _ Hs). exact Hn1.
+        + destruct (A1 _ _ Hp1) as (n & Hle & Hn1). exists (S n). split; [lia|]. rewrite (solo_S _ _ _ _ Hs). exact Hn1.
+      - destruct (A1 _ _ Hp1) as (n & Hle & Hn1). exists (S n). split; [lia|]. rewrite (solo_S _ _ _ _ Hs). exact Hn1. }
+    destruct p as [|o|old new ver|old new|r]; [congruence| | | |].
+    - destruct (astep_local c t _ Hp Hn) as (c1 & Hs & Hrest). destruct o as [|v|v|old new].
+      + destruct Hrest as (_ & r & Hp1). destruct (A1 _ _ Hp1) as (n & Hle & Hn1).
+        exists (S n). split; [lia|]. rewrite (solo_S _ _ _ _ Hs). exact Hn1.
+      + destruct Hrest as (r & Hp1). destruct (A1 _ _ Hp1) as (n & Hle & Hn1).
+        exists (S n). split; [lia|]. rewrite (solo_S _ _ _ _ Hs). exact Hn1.
+      + destruct Hrest as (r & Hp1). destruct (A1 _ _ Hp1) as (n & Hle & Hn1).
+        exists (S n). split; [lia|]. rewrite (solo_S _ _ _ _ Hs). exact Hn1.
+      + destruct Hrest as (Hreg & Hp1). unfold prim_cas1 in Hp1.
+        destruct (r_cur (a_reg c)) as [b|] eqn:Hc.
+        * destruct (eqb (b_val b) old) eqn:Heq.
+          -- rewrite <- Hreg in Hc. destruct (A2 _ _ _ _ Hp1 Hc) as (n & Hle & Hn1).
+             exists (S n). split; [lia|]. rewrite (solo_S _ _ _ _ Hs). exact Hn1.
+          -- destruct (A4 _ _ _ Hp1) as (n & Hle & Hn1). exists (S n). split; [lia|]. rewrite (solo_S _ _ _ _ Hs). exact Hn1.
+        * destruct (A4 _ _ _ Hp1) as (n & Hle & Hn1). exists (S n). split; [lia|]. rewrite (solo_S _ _ _ _ Hs). exact Hn1.
+    - destruct (astep_local c t _ Hp Hn) as (c1 & Hs & _ & Hp1).
+      destruct (fst (prim_cas2 eqb ver old new false (a_reg c))).
+      + destruct (A1 _ _ Hp1) as (n & Hle & Hn1). exists (S n). split; [lia|]. rewrite (solo_S _ _ _ _ Hs). exact Hn1.
+      + destruct (A4 _ _ _ Hp1) as (n & Hle & Hn1). exists (S n). split; [lia|]. rewrite (solo_S _ _ _ _ Hs). exact Hn1.
+    - destruct (A4 _ _ _ Hp) as (n & Hle & Hn1). exists n. split; [lia|exact Hn1].
+    - destruct (A1 _ _ Hp) as (n & Hle & Hn1). exists n. split; [lia|exact Hn1].
   Qed.
 End AtomicProofs.
 
@@ -801,4 +922,84 @@ Proof.
     { rewrite E, <- app_assoc. reflexivity. }
     apply pool_get_source in E'. simpl in E'. destruct E' as (Hn & Hk & Hf). split; [exact Hn|]. split; [exact Hk|]. eauto.
   - exact H.
+Qed.
+
+(* ---- what the threads were handed is what the trace says ---- *)
+
+Definition tgot (t : tid) (tr : list pevent) : list val :=
+  flat_map (fun e => match e with PERetGet t' v _ => if t' =? t then [v] else [] | _ => [] end) tr.
+
+Definition no_ret (evs : list pevent) : Prop := forall t v src, ~ In (PERetGet t v src) evs.
+
+Lemma tgot_no_ret evs tr t : no_ret evs -> tgot t (evs ++ tr) = tgot t tr.
+Proof.
+  intro H. unfold tgot. rewrite flat_map_app.
+  replace (flat_map _ evs) with (@nil val); [reflexivity|].
+  symmetry. induction evs as [|e evs IH]; simpl; auto.
+  rewrite IH by (intros t0 v src Hin; apply (H t0 v src); right; exact Hin).
+  destruct e; simpl; auto. exfalso. eapply H. left. reflexivity.
+Qed.
+
+Lemma pstep_thread_shape c t ch c' : pstep_thread c t ch = Some c' ->
+  exists th th' evs, nth_error (p_threads c) t = Some th /\
+    p_threads c' = set_pthread (p_threads c) t th' /\ p_trace c' = evs ++ p_trace c /\
+    ((p_got th' = p_got th /\ no_ret evs) \/ exists v src, p_got th' = p_got th ++ [v] /\ evs = [PERetGet t v src]).
+Proof.
+  unfold pstep_thread. destruct (nth_error (p_threads c) t) as [th|] eqn:Hth; [|discriminate].
+  assert (fin : forall th' evs,
+            p_got th' = p_got th -> no_ret evs ->
+            exists th0 th'0 evs0, Some th = Some th0 /\
+              set_pthread (p_threads c) t th' = set_pthread (p_threads c) t th'0 /\ evs ++ p_trace c = evs0 ++ p_trace c /\
+              ((p_got th'0 = p_got th0 /\ no_ret evs0) \/ exists v src, p_got th'0 = p_got th0 ++ [v] /\ evs0 = [PERetGet t v src])).
+  { intros th' evs H1 H2. exists th, th', evs. repeat split; auto. }
+  assert (N0 : no_ret []) by (intros ? ? ? []).
+  assert (N1 : forall e, (forall t v src, e <> PERetGet t v src) -> no_ret [e]).
+  { intros e He t0 v src [E|[]]. eapply He; eauto. }
+  destruct (p_pc th) as [| | | |v src|v].
+  - destruct (p_prog th) as [|[|k| |] rest]; [discriminate| | | |].
+    + intros [= <-]. simpl. apply (fin _ [PEInvGet t]); auto. apply N1. discriminate.
+    + destruct (nth_error (p_held th) k) as [x|]; intros [= <-]; simpl.
+      * apply (fin _ [PEInvPut t x]); auto. apply N1. discriminate.
+      * apply (fin _ []); auto.
+    + intros [= <-]. simpl. apply (fin _ [PEInvPut t (Tok t (p_fresh th))]); auto. apply N1. discriminate.
+    + intros [= <-]. simpl. apply (fin _ [PEInvPut t Zero]); auto. apply N1. discriminate.
+  - destruct (p_new c); intros [= <-]; simpl; apply (fin _ []); auto.
+  - destruct ch as [i|].
+    + destruct (nth_error (p_bag c) i) as [x|]; [|discriminate]. intros [= <-]. simpl.
+      apply (fin _ [PETake t x]); auto. apply N1. discriminate.
+    + intros [= <-]. simpl. apply (fin _ [PEMiss t]); auto. apply N1. discriminate.
+  - intros [= <-]. simpl. apply (fin _ [PENew t (Tok t (p_fresh th))]); auto. apply N1. discriminate.
+  - intros [= <-]. simpl. eexists th, _, [PERetGet t v src]. repeat split; auto. right. exists v, src. auto.
+  - intros [= <-]. simpl. apply (fin _ [PEPut t v]); auto. apply N1. discriminate.
+Qed.
+
+Definition got_ok (c : pconfig) : Prop :=
+  forall t th, nth_error (p_threads c) t = Some th -> p_got th = rev (tgot t (p_trace c)).
+
+Lemma pstep_got c a c' : got_ok c -> pstep c a = Some c' -> got_ok c'.
+Proof.
+  intros H Hs. destruct a as [t ch|i]; simpl in Hs.
+  - destruct (pstep_thread_shape _ _ _ _ Hs) as (th & th' & evs & Hth & E1 & E2 & Hr).
+    unfold got_ok. rewrite E1, E2. intros t0 th0 H0. destruct (Nat.eq_dec t0 t) as [->|N].
+    + rewrite (nth_error_pset_same _ _ _ _ Hth) in H0. injection H0 as <-.
+      destruct Hr as [(-> & Hn)|(v & src & -> & ->)].
+      * rewrite tgot_no_ret by exact Hn. apply H; auto.
+      * simpl. rewrite Nat.eqb_refl. simpl. rewrite (H _ _ Hth). reflexivity.
+    + rewrite nth_error_pset_other in H0 by exact N.
+      destruct Hr as [(_ & Hn)|(v & src & _ & ->)].
+      * rewrite tgot_no_ret by exact Hn. apply H; auto.
+      * simpl. apply Nat.eqb_neq in N. rewrite Nat.eqb_sym, N. simpl. apply H; auto.
+  - destruct (nth_error (p_bag c) i) as [x|]; [|discriminate]. injection Hs as <-.
+    intros t th H0. simpl in *. apply H; auto.
+Qed.
+
+(* the values a goroutine's Get calls returned are exactly its Get responses in the trace, in order *)
+Theorem pool_got_are_returns new progs s t th :
+  nth_error (p_threads (prun (pinit new progs) s)) t = Some th ->
+  p_got th = rev (tgot t (p_trace (prun (pinit new progs) s))).
+Proof.
+  assert (G : forall s c, got_ok c -> got_ok (prun c s)).
+  { induction s0 as [|a s0 IH]; intros c H; simpl; auto.
+    apply IH. destruct (pstep c a) as [c'|] eqn:E; auto. eapply pstep_got; eauto. }
+  apply G. intros t0 th0 H0. apply nth_error_In in H0. apply in_map_iff in H0 as (p & <- & _). reflexivity.
 Qed.
